@@ -27,7 +27,7 @@ RULE = ('Two program families: multi-file layout programs whose included files l
 ASSUMPTIONS = ['all paths on the command line are absolute and identical across the compared runs, so that listings may '
                'print them']
 SHARD_MIN = 4
-BUDGET = {'quick': 64, 'thorough': 1200}
+BUDGET = {'quick': 64, 'thorough': 4000}
 LEVEL_TEXT = ('Exploration by re-execution: the only source of run-to-run variation is set/dict iteration order and the '
               'environment, so the same generated input is re-run in fresh interpreters under different hash seeds and '
               'environments and every observable output is compared byte for byte.')
